@@ -713,8 +713,17 @@ class BinaryOp(Expr):
                 if t in (self.left.type, self.right.type):
                     operand_type = t
                     break
-        left = operand_type.coerce(self.left.eval())
-        right = operand_type.coerce(self.right.eval())
+        left = self.left.eval()
+        right = self.right.eval()
+        if operand_type.is_integral:
+            # the run-time conversion of an operand to the integral
+            # type overflows if the rounded value does not fit
+            for value in (left, right):
+                if isinstance(value, complex) or \
+                   not operand_type.can_hold(round(value)):
+                    raise OverflowError
+        left = operand_type.coerce(left)
+        right = operand_type.coerce(right)
 
         def qbool(x):
             return -1 if x else 0
@@ -730,19 +739,23 @@ class BinaryOp(Expr):
             return -r if a < 0 else r
 
         def limit(x):
-            if not self.left.type.is_integral:
-                return x
-
-            c_type = {
-                Type.INTEGER: ctypes.c_short,
-                Type.LONG: ctypes.c_long,
-                Type.SINGLE: ctypes.c_float,
-                Type.DOUBLE: ctypes.c_double,
-            }[self.type]
-            result = c_type(x).value
-            if result != x:
+            # a result the type of the expression cannot hold is an
+            # overflow at run time
+            if isinstance(x, complex):
+                raise ValueError('complex result')
+            if self.type.is_integral and isinstance(x, float):
+                x = round(x)
+            if not self.type.can_hold(x):
                 raise OverflowError
-            return result
+            return x
+
+        def qb_exp(a, b):
+            if isinstance(a, int) and isinstance(b, int):
+                # do not build an astronomically large integer just
+                # to find out that it does not fit
+                if abs(float(a) ** float(b)) > 2.0 ** 32:
+                    raise OverflowError
+            return a ** b
 
         result = {
             Operator.CMP_EQ: lambda a, b: qbool(a == b),
@@ -762,7 +775,7 @@ class BinaryOp(Expr):
             Operator.DIV: lambda a, b: limit(a / b),
             Operator.MOD: lambda a, b: limit(qb_mod(a, b)),
             Operator.INTDIV: lambda a, b: limit(qb_intdiv(a, b)),
-            Operator.EXP: lambda a, b: limit(a ** b),
+            Operator.EXP: lambda a, b: limit(qb_exp(a, b)),
         }[self.op](left, right)
 
         return result
